@@ -10,6 +10,7 @@
 #include "error.hpp"
 
 #include "free_list_utils.hpp"
+#include "detail/verif_hooks.hpp"
 
 using namespace foonathan::memory;
 using namespace detail;
@@ -159,6 +160,7 @@ void foonathan::memory::detail::swap(free_memory_list& a, free_memory_list& b) n
 
 void free_memory_list::insert(void* mem, std::size_t size) noexcept
 {
+    FOONATHAN_MEMORY_VERIF_INSERT(this, mem, size, node_size_);
     FOONATHAN_MEMORY_ASSERT(mem);
     FOONATHAN_MEMORY_ASSERT(is_aligned(mem, alignment()));
     detail::debug_fill_internal(mem, size, false);
@@ -417,6 +419,7 @@ void foonathan::memory::detail::swap(ordered_free_memory_list& a,
 
 void ordered_free_memory_list::insert(void* mem, std::size_t size) noexcept
 {
+    FOONATHAN_MEMORY_VERIF_INSERT(this, mem, size, node_size_);
     FOONATHAN_MEMORY_ASSERT(mem);
     FOONATHAN_MEMORY_ASSERT(is_aligned(mem, alignment()));
     detail::debug_fill_internal(mem, size, false);
